@@ -460,10 +460,17 @@ func (t *Trie) updateRefCount(h util.Uint256, key []byte, index uint32) int32 {
 		data, err = getFromStore(key, t.mode, t.Store)
 		if err == nil {
 			cnt = int32(binary.LittleEndian.Uint32(data[len(data)-4:]))
+			// The slice belongs to the store, it must not be changed in place:
+			// the changes of this trie may never be applied.
+			data = bytes.Clone(data)
 		}
 	}
 	if len(data) == 0 {
-		data = append(node.bytes, 1, 0, 0, 0, 0)
+		// node.bytes can be a part of a slice that belongs to the store
+		// (see getFromStore), never append to it in place.
+		data = make([]byte, len(node.bytes)+5)
+		copy(data, node.bytes)
+		data[len(node.bytes)] = 1
 	}
 	cnt += node.refcount
 	switch {
